@@ -29,7 +29,9 @@ ASSUMPTIONS = ["calendars/zones enumerated; usage values and the missing layout 
 EXPECTED_REGIMES = ["day covered exactly half", "day covered just over half", "23-hour day", "off-cycle period dropped", "valid period conserved"]
 STEP = {"15": pd.Timedelta(minutes=15), "30": pd.Timedelta(minutes=30), "60": pd.Timedelta(hours=1)}
 START = {"US/Pacific": "2021-03-13", "UTC": "2021-06-01", "Australia/Sydney": "2021-04-03", "Europe/London": "2021-10-30"}
-CALENDARS = {"30-31-28": [30, 31, 28], "24-30-36": [24, 30, 36, 30], "60-61": [60, 61], "30-71": [30, 71, 30], "25-35-35": [25, 35, 35], "70-25": [70, 25, 30]}
+CALENDARS = {"30-31-28": [30, 31, 28], "24-30-36": [24, 30, 36, 30], "60-61": [60, 61], "30-71": [30, 71, 30], "25-35-35": [25, 35, 35], "70-25": [70, 25, 30],
+             "fall-35": [30, 35, 30]}  # US/Pacific from 2021-09-05: the 35-day period spans the fall-back (35 days + 1 hour elapsed)
+CAL_START = {"fall-35": "2021-09-05"}
 
 
 def ENCODED():
@@ -42,7 +44,7 @@ def cases(tier, seed):
     zones = ["US/Pacific", "UTC"] + (["Australia/Sydney", "Europe/London"] if tier == "thorough" else [])
     out = [f"{k}|{z}|{s}" for k in ("fn", "class") for z in zones for s in ("15", "30", "60")] + [f"daily|{z}|D" for z in zones[:2]]
     cals = ["30-31-28", "24-30-36", "60-61", "30-71"] + (["25-35-35", "70-25"] if tier == "thorough" else [])
-    out += [f"billing|UTC|{c}" for c in cals] + ["billing|US/Pacific|30-71"]
+    out += [f"billing|UTC|{c}" for c in cals] + ["billing|US/Pacific|30-71", "billing|US/Pacific|fall-35"]
     return out
 
 
@@ -93,7 +95,7 @@ def build_daily(zone, days, sym, env=None):
 
 
 def billing_index(zone, cal):
-    t = pd.Timestamp("2021-01-05").tz_localize(zone)
+    t = pd.Timestamp(CAL_START.get(cal, "2021-01-05")).tz_localize(zone)
     out = [t]
     for L in CALENDARS[cal]:
         t = (t.tz_localize(None) + pd.Timedelta(days=L)).tz_localize(zone)
